@@ -20,6 +20,7 @@ import (
 // HeaderSubmissionLoop, DataSubmissionLoop and DAIncluderLoop run unmodified in virtual time
 // against the scripted DA double (C06, C07, C08).
 type subRun struct {
+	lateLoop string
 	c       *Ctx
 	w       *world.World
 	n       *world.Node
@@ -100,8 +101,24 @@ func (s *subRun) start() error {
 	s.mu.Unlock()
 	m := s.n.M
 	errCh := make(chan error, 1)
-	s.loop("HeaderSubmissionLoop", func(ctx context.Context) { m.HeaderSubmissionLoop(ctx) })
-	s.loop("DataSubmissionLoop", func(ctx context.Context) { m.DataSubmissionLoop(ctx) })
+	// lateLoop: that loop's goroutine gets going only after the others have been through their first round (goroutine
+	// start-up order and delay are the scheduler's choice); one shot
+	late := func(name string, f func(ctx context.Context)) func(ctx context.Context) {
+		if s.lateLoop != name {
+			return f
+		}
+		s.lateLoop = ""
+		return func(ctx context.Context) {
+			select {
+			case <-time.After(daBlockTime * 5 / 2):
+			case <-ctx.Done():
+				return
+			}
+			f(ctx)
+		}
+	}
+	s.loop("HeaderSubmissionLoop", late("HeaderSubmissionLoop", func(ctx context.Context) { m.HeaderSubmissionLoop(ctx) }))
+	s.loop("DataSubmissionLoop", late("DataSubmissionLoop", func(ctx context.Context) { m.DataSubmissionLoop(ctx) }))
 	s.loop("DAIncluderLoop", func(ctx context.Context) { m.DAIncluderLoop(ctx, errCh) })
 	ctx, cancel := s.ctx, s.cancel
 	s.wg.Add(1)
@@ -417,6 +434,32 @@ func RunSubmitScenarios(c *Ctx) {
 					})
 				}
 			}
+			// a DA outage that outlasts a whole submission call (all its attempts) while the limit is reached: nothing
+			// changes on the node's side in the meantime; when the DA layer accepts again, production resumes
+			if limit >= 1 {
+				for _, outage := range []string{"err", "timeout", "mempool"} {
+					synctest.Run(func() {
+						s := newSubRun(c, fmt.Sprintf("longoutage/ih%d/L%d/%s", ih, limit, outage), ih, limit, world.F{"src": "longoutage"})
+						defer s.finish()
+						if s.start() != nil {
+							return
+						}
+						s.produce("none")
+						s.tick()
+						s.tick()
+						s.w.DA.Default = outage
+						for i := 0; i < int(limit)+1; i++ {
+							s.seedTx++
+							s.produce(fmt.Sprintf("p%d", s.seedTx))
+						}
+						for i := 0; i < 100 && !s.down(); i++ {
+							s.tick()
+						}
+						s.settle(int(limit)+1, false)
+						c.Count("scenarios", 1)
+					})
+				}
+			}
 			// a DA layer that acknowledges only a prefix of a submission and then fails for longer than one
 			// submission call keeps retrying: what it acknowledged must stop counting against the limit
 			if limit >= 2 {
@@ -486,6 +529,78 @@ func RunSubmitScenarios(c *Ctx) {
 					s.settle(int(limit)+1, false)
 					c.Count("scenarios", 1)
 				})
+			}
+		}
+	}
+}
+
+// RunSubmitCrashEnum: the process dies at every durable-write boundary of a submission round (the fuse counts the
+// writes of all loops of that round: header bookkeeping, data bookkeeping, inclusion), for the first round after
+// start and for a later one, then restarts on the same storage and has to get everything submitted and included.
+func RunSubmitCrashEnum(c *Ctx) {
+	type pat struct {
+		name   string
+		first  []string // blocks produced before the first round
+		second []string // blocks produced before the second round (nil: crash in the first round)
+		late   string   // a loop that starts late (the process is killed after the first round of the others)
+	}
+	pats := []pat{
+		{"first", []string{"a", "none", "b"}, nil, ""},
+		{"first-txs-only", []string{"a", "b"}, nil, ""},
+		{"second", []string{"a"}, []string{"b", "none", "c"}, ""},
+		// one of the two submission loops is still starting up while the other completes its first round
+		{"late-data", []string{"a", "none", "b"}, nil, "DataSubmissionLoop"},
+		{"late-header", []string{"a", "none", "b"}, nil, "HeaderSubmissionLoop"},
+	}
+	for _, ih := range []uint64{1, 3} {
+		for _, limit := range []uint64{0, 3} {
+			for _, pt := range pats {
+				run := func(k int, name string) (writes int) {
+					synctest.Run(func() {
+						s := newSubRun(c, name, ih, limit, world.F{"src": "crashenum"})
+						defer s.finish()
+						s.lateLoop = pt.late
+						if s.start() != nil {
+							return
+						}
+						for _, b := range pt.first {
+							s.produce(b)
+						}
+						if pt.second != nil {
+							s.tick()
+							for _, b := range pt.second {
+								s.produce(b)
+							}
+						}
+						w0 := s.n.KV.Writes()
+						if k >= 0 {
+							s.n.KV.Arm(k)
+						}
+						s.tick() // a round takes more than one instant (the DA call has latency): two periods cover it
+						if !s.down() {
+							s.tick()
+						}
+						s.n.KV.Disarm()
+						writes = s.n.KV.Writes() - w0
+						if pt.late != "" && k < 0 && !s.down() {
+							s.stop(false) // killed before the late loop has run at all
+						}
+						if s.down() {
+							if s.n.M != nil {
+								s.stop(false)
+							}
+							s.start()
+						}
+						s.settle(int(limit)+1, false)
+						c.Count("crashruns", 1)
+					})
+					return
+				}
+				base := fmt.Sprintf("crash/ih%d/L%d/%s", ih, limit, pt.name)
+				W := run(-1, base+"/measure")
+				for k := 0; k <= W; k++ {
+					run(k, fmt.Sprintf("%s/k%d", base, k))
+				}
 			}
 		}
 	}
